@@ -21,9 +21,11 @@ class Client(kernel.Actor):
     kind = "client"
     weight_key = "client"
 
-    def __init__(self, world, idx, script, addr=None, slow=False, origin="", close_fails=False, late=False):
+    def __init__(self, world, idx, script, addr=None, slow=False, origin="", close_fails=False, late=False,
+                 send_stall=None):
         self.close_fails = close_fails
         self.late = late
+        self.send_stall = send_stall
         self.world = world
         self.sim = world.sim
         self.idx = idx
@@ -80,6 +82,18 @@ class Client(kernel.Actor):
         text.encode("utf-8")      # a real websocket cannot send lone surrogates: UnicodeEncodeError
         self.transcript.append((self.sim.stamp(), text))
         self.sim.note("tx", "c%d" % self.idx)
+        self.n_sends = getattr(self, "n_sends", 0) + 1
+        if self.send_stall and not self.sim.draining and self.n_sends in self.send_stall.get("sends", []):
+            # fault: the reader stalls - this send takes a long (virtual) time although the peer is alive
+            import asyncio
+            self.sim.faults["stalled_reader_send"] += 1
+            self.world.stalled_sends += 1
+            try:
+                await asyncio.sleep(float(self.send_stall.get("seconds", 10.0)))
+            finally:
+                self.world.stalled_sends -= 1
+            if self.disconnected:
+                raise falcon.WebSocketDisconnected()
         if self.slow and not self.sim.draining:
             self.sim.faults["slow_consumer_send"] += 1
             fut = self.sim.loop.create_future()
@@ -204,8 +218,10 @@ class RelayWorld:
         self.env = RunEnv(sim, backend, cfg=cfg, storage_opts=storage_opts)
         self.env.track_states = True
         self.clock_jumps = []
+        self.stalled_sends = 0
         self.clients = [Client(self, i, c["script"], addr=c.get("addr"), slow=c.get("slow", False),
-                               origin=c.get("origin", ""), close_fails=c.get("close_fails", False), late=c.get("late", False))
+                               origin=c.get("origin", ""), close_fails=c.get("close_fails", False), late=c.get("late", False),
+                               send_stall=c.get("send_stall"))
                         for i, c in enumerate(clients)]
         self.message_timeout = message_timeout
         self.rate_limits = rate_limits
@@ -394,6 +410,8 @@ class RelayWorld:
         def in_command():
             # a handler is in the middle of a command (e.g. sleeping in a throttle), or a client
             # script still has frames to send (it is in a "wait")
+            if self.stalled_sends:
+                return True          # a send to a stalled reader is still under way
             for c in self.clients:
                 if c.task.done():
                     continue
